@@ -108,6 +108,14 @@ func runSamFam(vec map[string]interface{}) map[string]interface{} {
 				return obs
 			}
 			res["err"] = errStr(err)
+			if gBool(vec, "cli") && err == nil {
+				args := []string{"sam", "toMultiAlign", "-s", "@in.sam", "-t", itoa(t)}
+				args = flagInt(flagInt(flagInt(args, "--start", s, -1), "--end", e, -1), "-w", wrap, -1)
+				args = flagBool(args, "--pad", gBool(r, "pad"))
+				for k, v := range cliRun(cliCase{files: map[string][]byte{"in.sam": samData}, args: args, inproc: out.String()}) {
+					res[k] = v
+				}
+			}
 			recs := []interface{}{}
 			for _, fr := range parseFasta(out.String()) {
 				recs = append(recs, map[string]interface{}{"qi": nameIndex(fr.name, "q"), "seq": symList(fr.seq), "lens": fr.lens})
@@ -134,6 +142,19 @@ func runSamFam(vec map[string]interface{}) map[string]interface{} {
 			pairs := []interface{}{}
 			files, _ := filepath.Glob(filepath.Join(dir, "*.fasta"))
 			sort.Strings(files)
+			if gBool(vec, "cli") && err == nil {
+				inprocD := map[string]string{}
+				for _, f := range files {
+					b, _ := os.ReadFile(f)
+					inprocD[filepath.Base(f)] = string(b)
+				}
+				args := []string{"sam", "toPairAlign", "-s", "@in.sam", "-r", "@ref.fa", "-o", "@outdir", "-t", itoa(t)}
+				args = flagInt(flagInt(flagInt(args, "--start", s, -1), "--end", e, -1), "-w", wrap, -1)
+				args = flagBool(flagBool(args, "--omit-reference", gBool(r, "omitref")), "--skip-insertions", gBool(r, "skipins"))
+				for k, v := range cliRun(cliCase{files: map[string][]byte{"in.sam": samData, "ref.fa": refFa}, args: args, outdir: "outdir", inprocD: inprocD}) {
+					res[k] = v
+				}
+			}
 			for _, f := range files {
 				b, _ := os.ReadFile(f)
 				frs := parseFasta(string(b))
